@@ -250,4 +250,15 @@ func milenageDomain(e *emitter) {
 			e.op("mil_opc", hx(kk), hx(short(op)))
 		}
 	}
+	// a key that is not an AES key (aes.NewCipher refuses every length but 16, 24, 32): the error / -1 return of every
+	// entry point, all other arguments well-formed
+	for _, n := range []int{0, 1, 15, 17, 31, 33} {
+		kk, opc, rnd, sqn, amf, autn, op := e.bytes(n), e.bytes(16), e.bytes(16), sqnBytes(7), e.bytes(2), e.bytes(16), e.bytes(16)
+		e.op("mil_f1", hx(opc), hx(kk), hx(rnd), hx(sqn), hx(amf))
+		e.op("mil_f2345", hx(opc), hx(kk), hx(rnd), "1", "1", "1", "1", "1")
+		e.op("mil_gen", hx(opc), hx(amf), hx(kk), hx(sqn), hx(rnd), "8")
+		e.op("mil_check", hx(opc), hx(kk), hx(sqn), hx(rnd), hx(autn))
+		e.op("mil_auts", hx(opc), hx(kk), hx(rnd), hx(e.bytes(14)))
+		e.op("mil_opc", hx(kk), hx(op))
+	}
 }
